@@ -3,7 +3,9 @@ CONSTANTS
   MaxBytes = 2
   MaxClock = 1
   Timeouts = {1}
+  MaxIntr = 2
+  IntrMode = "remainder"
 SPECIFICATION FairSpec
-INVARIANTS TypeOK PrefixInv AllDeliveredAtEof TimeoutNotEarly EofOnlyAfterAll TryNeverBlocks CtorUniform
+INVARIANTS TypeOK PrefixInv AllDeliveredAtEof TimeoutNotEarly EofOnlyAfterAll TryNeverBlocks CtorUniform LegsAddUp
 PROPERTIES ReadCompletes AcceptCompletes WriteCompletes TimedCallsReturn
 CHECK_DEADLOCK FALSE
